@@ -58,6 +58,12 @@ func c16RuleText(c *core.Ctx, mask int) string {
 		}
 	}
 	mods = util.Shuffle(c.Rng, mods)
+	// An empty component (doubled, leading or trailing comma) is legal and
+	// means nothing.
+	if len(mods) > 0 && c.Rng.Intn(4) == 0 {
+		i := c.Rng.Intn(len(mods) + 1)
+		mods = append(mods[:i], append([]string{""}, mods[i:]...)...)
+	}
 	text := "@@||example.org^"
 	if len(mods) > 0 {
 		text += "$" + strings.Join(mods, ",")
